@@ -96,7 +96,34 @@ def cqd_check(rng, spec, ops, driver=None):
     omin, omax = rng.choice([(-4.0, 4.0), (-4.0, 4.0), (0.0, 1.0), (-1.0, 1.0), (-6.0, 2.0), (0.0, 64.0)])
     dmax = rng.choice([8.0, 8.0, 1.0, 0.25, 2.0, 32.0])
     orng, dm = au.F(omax) - au.F(omin), au.F(dmax)
+    if n and rng.random() < 0.5:
+        # some targets sit exactly on / within a hair of an elite's measures (distance 0 or tiny)
+        for it in range(iters):
+            k = rng.randrange(n)
+            tp[it][rng.randrange(nt)] = np.asarray(d["measures"][k], dtype=np.float64) + rng.choice([0.0, 0.0, 2.0 ** -30])
     snap = {k: np.array(v, copy=True) for k, v in d.items() if v.dtype != object}
+    if n:
+        # other norms (the default Euclidean one, the max norm), in floating point: the per-pair distance is the norm of the difference
+        for ordv, name in ((None, "default (Euclidean)"), (np.inf, "inf")):
+            try:
+                r2 = archive.cqd_score(iterations=iters, target_points=tp, penalties=pens, obj_min=omin, obj_max=omax, dist_max=dmax, dist_ord=ordv)
+            except Exception as e:  # noqa
+                return "cqd_score(dist_ord=%s) raised %r on a non-empty archive" % (name, e)
+            mo = np.asarray(d["objective"], dtype=np.float64) / (omax - omin)
+            mm_ = np.asarray(d["measures"], dtype=np.float64)
+            want = []
+            for it in range(iters):
+                sc = 0.0
+                for pen in pens:
+                    for t in tp[it]:
+                        diff = mm_ - np.asarray(t, dtype=np.float64)[None]
+                        dist = np.sqrt(np.sum(diff * diff, axis=1)) if ordv is None else np.max(np.abs(diff), axis=1)
+                        sc += float(np.max(mo - pen * dist / dmax))
+                want.append(sc)
+            scale = sum(abs(x) for x in want) + len(pens) * nt * (abs(float(np.max(np.abs(mo)))) + 1.0)
+            got2 = [float(x) for x in r2.scores]
+            if len(got2) != len(want) or any((not np.isfinite(g)) or abs(g - w) > 1e-12 * scale for g, w in zip(got2, want)):
+                return "cqd_score(dist_ord=%s).scores = %s but the formula on the current elites gives %s" % (name, got2, want)
     try:
         res = archive.cqd_score(iterations=iters, target_points=tp, penalties=pens, obj_min=omin, obj_max=omax, dist_max=dmax, dist_ord=1)
     except Exception as e:  # noqa
@@ -155,7 +182,8 @@ def check(rep, tier, seed, driver):
     rep.rule = ("(a) exact stream: dyadic objectives (multiples of 1/8, |x| <= 8) and dyadic offsets so that every float sum is exact; elitist "
                 "Grid/CVT/Sliding archives; whole-history comparison of stats/best_elite bit for bit (float64) or correctly rounded (float32); "
                 "(b) CMA-MAE and moderate floats: step-wise simulation, statistics within a few ulp of the summed magnitudes; (c) cqd_score vs "
-                "its formula in exact arithmetic on data(); non-trivial = history with a clear and a measure point hit by >= 2 calls")
+                "its formula in exact arithmetic on data(); non-trivial = history with a clear and a measure point hit by >= 2 calls" 
+                "; cqd_score: several objective ranges / penalty vectors / dist_max below and above the spread / targets far outside the bounds and exactly on elites; L1 exactly, default (Euclidean) and max norm in floating point")
     cases = au.load_corpus("C06")
     rep.count("corpus_cases", len(cases))
     for k in range(n):
